@@ -13,6 +13,20 @@ import KonstVerif.Lemmas.Cmp
   The corpus line that exposes a revert of the fix is `cmp.fn slice_u8 [2] [1;1]` (and the same
   pair through `cmp.for`, `cmp.macro`, `cmp.opt`); the exhaustive generator of `harness/src/c16.rs`
   contains it.
+
+  F10 (fixed in /repo by e16d62f): the AS-FOUND `__cmp_assert_inner!` (`assertc_eq!` /
+  `assertc_ne!`) bound both arguments with `match (&$left, &$right)` and then wrote
+  `coerce_to_cmp!($left).const_eq(right)`: the left argument EXPRESSION was evaluated twice and the
+  value of the second evaluation was compared.
+
+    * `legacyCmpAssertArgs`            — the as-found use of the argument expressions
+    * `legacyCmpAssertArgs_left_twice` — left twice, right once, second left value compared
+    * `legacyCmpAssertArgs_operands_of_idempotent` — no difference for variables / constants /
+                                         pure calls, which is why konst's own uses never showed it
+    * `legacy_assert_ne_std`           — kernel-checked witness: `assertc_eq!(next(), 0)` with
+                                         `next()` yielding 0 then 1 panicked, `assert_eq!` passes.
+  The corpus lines that expose a revert of the fix are `assertc.se.eq u8 0/1 0` (and every
+  `assertc.<se|sb>.<eq|ne>` request: `…|2|1|lrl` instead of `…|1|1|lr`), vlib/progs/c16.py.
 -/
 namespace Konst.Legacy.Cmp
 open Konst.Cmp Konst.Spec.Cmp Konst.Lemmas.Cmp
@@ -161,5 +175,35 @@ theorem legacy_eq_lex_of_length_eq (l r : List Int) (h : l.length = r.length) :
   rw [legacyCmpSlice_eq_shortLex, shortLex, (lenOrd_eq_eq _ _).2 h]
   obtain ⟨o, h1, h2⟩ := cmpSliceInner_spec l r
   simp [cmpSlice, h1, h2, Ordering.then]
+
+/-! ## F10: `assertc_eq!` / `assertc_ne!` evaluated `$left` twice -/
+
+/-- as found: `match (&$left, &$right) { (left, right) => if let $is_equal =
+    coerce_to_cmp!($left).const_eq(right) { … } }` — `$left`, `$right`, `$left` again; the second
+    value of `$left` is compared with the value of `$right` -/
+def legacyCmpAssertArgs : ArgUse := ⟨[.left, .right, .left], 1, 0⟩
+
+/-- as found: `$left` evaluated TWICE (`$right` once), second value compared -/
+theorem legacyCmpAssertArgs_left_twice {α : Type} (l r : ArgExpr α) :
+    legacyCmpAssertArgs.evals = [.left, .right, .left] ∧ legacyCmpAssertArgs.count .left = 2 ∧
+      legacyCmpAssertArgs.count .right = 1 ∧ legacyCmpAssertArgs.operands l r = (l.eval 1, r.eval 0) :=
+  ⟨rfl, by decide, by decide, rfl⟩
+
+/-- as found, the operands were those of `assert_eq!` whenever a second evaluation of `$left`
+    produced the same value as the first -/
+theorem legacyCmpAssertArgs_operands_of_idempotent {α : Type} (l r : ArgExpr α) (h : l.eval 1 = l.eval 0) :
+    legacyCmpAssertArgs.operands l r = ArgUse.once.operands l r := by
+  simp [ArgUse.operands, legacyCmpAssertArgs, ArgUse.once, h]
+
+/-- **F10 witness** (kernel-checked): `assertc_eq!(next(), 0u8)` with `next()` yielding 0, then 1:
+    the as-found expansion compared 1 with 0 and panicked; `assert_eq!` (and the repaired macro)
+    compare 0 with 0 and pass -/
+theorem legacy_assert_ne_std :
+    let l : ArgExpr Int := ⟨0, [1]⟩
+    let r : ArgExpr Int := ⟨0, []⟩
+    assertcEq (some (eqPrim (legacyCmpAssertArgs.operands l r).1 (legacyCmpAssertArgs.operands l r).2)) = .panic ∧
+      assertcEq (some (eqPrim (cmpAssertArgs.operands l r).1 (cmpAssertArgs.operands l r).2)) = .ok ∧
+      stdEq (ArgUse.once.operands l r).1 (ArgUse.once.operands l r).2 = true := by
+  decide +kernel
 
 end Konst.Legacy.Cmp
